@@ -52,16 +52,22 @@ def showCall : Option Nat → String
   | some inst => s!"ok:{inst}"
   | none => "unavailable"
 
+/-- The alignment the archived root of each message type of the harness needs (`alignof` compares it with
+`align_of::<Archived<T>>()` on every run). -/
+def alignOf : String → Nat
+  | "M2" => 4 | "Status" => 4 | _ => 8
+
 def step (st : State) (toks : List String) : State × String :=
   match toks with
   | ["crc", h] =>
     match unhex h with
     | some bs => (st, toString (crc32 bs))
     | none => (st, "bad-op")
-  | ["check", _ty, fixed, h] =>
+  | ["alignof", ty] => (st, s!"align {alignOf ty}")
+  | ["check", ty, fixed, h] =>
     match fixed.toNat?, unhex h with
     | some fixed, some bs =>
-      (st, match checkFrame fixed bs with | some _ => "ok" | none => "invalid")
+      (st, match checkFrameA fixed (alignOf ty) bs with | some _ => "ok" | none => "invalid")
     | _, _ => (st, "bad-op")
   | ["uri", hs, hp] =>
     -- the request path for a service name and a message name (hex of their UTF-8 bytes; `-` = empty)
@@ -97,7 +103,7 @@ def step (st : State) (toks : List String) : State × String :=
       match unhex (if h == "-" then "" else h) with
       | some bs =>
         let lie := declared != "-" && declared != "actual" && declared.toNat? != some bs.length
-        let fine := !lie && (checkFrame 56 bs).isSome
+        let fine := !lie && (checkFrameA 56 8 bs).isSome
         (st, if fine then "rawframe echo runs=1 panics=0" else "rawframe refused runs=0 panics=0")
       | none => (st, "bad-op")
     | none => (st, "bad-op")
